@@ -1,5 +1,5 @@
 """C35 — reference counts stay balanced on every path (structural clause: the code generator's own ownership protocols)."""
-from ..rules import gen2
+from ..rules import gen2, sC35
 
 ID = 'C35'
 TECHNIQUE = 'typestate/pairing dataflow over the code generator (evaluate -> dispose -> free_temps, allocate_temp -> release_temp, bracket pairs) on every normal path, class-level pairing for split protocols'
@@ -11,4 +11,4 @@ NOT_DECIDED = 'reference balance inside the C helpers and on error paths of the 
 
 
 def run(ctx):
-    return [gen2.rule_G1(ctx), gen2.rule_G2(ctx), gen2.rule_G5(ctx), gen2.rule_G7(ctx)]
+    return [gen2.rule_G1(ctx), gen2.rule_G2(ctx), gen2.rule_G5(ctx), gen2.rule_G7(ctx), sC35.rule_args(ctx)]
